@@ -193,9 +193,39 @@ def rand_payload(rng, size="small"):
     r = rng.random()
     if r < 0.12:
         return rand_scalar(rng)
+    if r < 0.20:
+        return self_similar(rng)
     if size == "small":
         return rand_value(rng, 0, 3, 3)
     return rand_value(rng, 0, 5, 6)
+
+
+def self_similar(rng):
+    """payloads that use the library's OWN vocabulary as plain data: an already signed envelope (counter-signing), a record that
+    has members called signatures / signed / signature / delegations, a signature entry, a map of entries.  To the signing and
+    verifying code a payload is opaque: these are JSON values like any other"""
+    hx = lambda n: "".join(rng.choice("0123456789abcdef") for _ in range(n))  # noqa: E731
+    inner = rand_value(rng, 0, 2, 3)
+    ent = rng.choice([{"signature": hx(128)}, {"signature": hx(128), "other_headers": hx(16)}, {}, "x", None])
+    sigs = rng.choice([{}, {hx(64): ent}, {hx(64): ent, hx(64): {"signature": hx(128)}}, {"k": 1}, [], None, "none", 0])
+    shape = rng.randrange(9)
+    if shape == 0:
+        return {"signatures": sigs, "signed": inner}
+    if shape == 1:
+        return {"signatures": sigs, "signed": {"signatures": {}, "signed": inner}}
+    if shape == 2:
+        return {"signatures": sigs, "name": "pkg", "version": "1.0", "depends": [inner]}
+    if shape == 3:
+        return {"signed": inner}
+    if shape == 4:
+        return {"signature": hx(128), "payload": inner}
+    if shape == 5:
+        return {"signatures": sigs}
+    if shape == 6:
+        return {"type": rng.choice(["root", "key_mgr", "pkg_mgr"]), "delegations": {"root": {"pubkeys": [hx(64)], "threshold": 1}}, "signatures": sigs}
+    if shape == 7:
+        return [{"signatures": sigs, "signed": inner}, {"signatures": {}, "signed": inner}]
+    return {"packages": {"a-1-0.tar.bz2": {"signatures": sigs, "signed": inner}}, "signatures": {"a-1-0.tar.bz2": sigs}}
 
 
 def shuffled(v, rng):
